@@ -75,6 +75,7 @@ func (f *DeleteIf) Call(s *slip.Scope, args slip.List, depth int) (result slip.O
 
 	switch ta := args[1].(type) {
 	case nil:
+		sfv.checkBounds(s, depth, 0)
 		// nothing to delete-if
 	case slip.List:
 		result = f.inList(s, ta, depth, &sfv)
@@ -92,9 +93,7 @@ func (f *DeleteIf) Call(s *slip.Scope, args slip.List, depth int) (result slip.O
 }
 
 func (f *DeleteIf) inList(s *slip.Scope, seq slip.List, depth int, sfv *seqFunVars) (list slip.List) {
-	if sfv.end < 0 || len(seq) < sfv.end {
-		sfv.end = len(seq)
-	}
+	sfv.checkBounds(s, depth, len(seq))
 	d2 := depth + 1
 	var count int
 	if sfv.fromEnd {
@@ -139,9 +138,7 @@ func (f *DeleteIf) inList(s *slip.Scope, seq slip.List, depth int, sfv *seqFunVa
 
 func (f *DeleteIf) inString(s *slip.Scope, seq slip.String, depth int, sfv *seqFunVars) slip.Object {
 	ra := []rune(seq)
-	if sfv.end < 0 || len(seq) < sfv.end {
-		sfv.end = len(seq)
-	}
+	sfv.checkBounds(s, depth, len(ra))
 	d2 := depth + 1
 	var (
 		count int
@@ -190,9 +187,7 @@ func (f *DeleteIf) inString(s *slip.Scope, seq slip.String, depth int, sfv *seqF
 
 func (f *DeleteIf) inOctets(s *slip.Scope, seq slip.Octets, depth int, sfv *seqFunVars) slip.Object {
 	ba := []byte(seq)
-	if sfv.end < 0 || len(seq) < sfv.end {
-		sfv.end = len(seq)
-	}
+	sfv.checkBounds(s, depth, len(seq))
 	d2 := depth + 1
 	var (
 		count int
